@@ -143,7 +143,11 @@ fn regs(_host: &mut Host, name: &str, op: &Value) -> Result<Option<Value>, Strin
     use sc62015_core::{apply_registers, collect_registers, pack_registers, unpack_registers};
     match name {
         "script" => {
-            let mut st = LlamaState::new();
+            // ["r.script", steps, mode?]: mode "runtime" drives the string-keyed API of a CoreRuntime
+            // (set_reg / get_reg by name) instead of the LlamaState directly; TEMPs always go through the state
+            let runtime = op.get(2).and_then(|x| x.as_str()) == Some("runtime");
+            let mut rt = Box::new(sc62015_core::CoreRuntime::new());
+            rt.state = LlamaState::new();
             let script = op.get(1).and_then(|x| x.as_array()).ok_or_else(|| "steps".to_string())?;
             let mut out: Vec<Value> = Vec::with_capacity(script.len());
             for step in script {
@@ -152,16 +156,29 @@ fn regs(_host: &mut Host, name: &str, op: &Value) -> Result<Option<Value>, Strin
                     "set" => {
                         let nm = crate::s(step, 1)?;
                         let reg = crate::reg_by_name(nm).ok_or_else(|| format!("bad reg {nm}"))?;
-                        st.set_reg(reg, u(step, 2)? as u32);
+                        if runtime && !nm.starts_with("TEMP") {
+                            rt.set_reg(nm, u(step, 2)? as u32);
+                        } else {
+                            rt.state.set_reg(reg, u(step, 2)? as u32);
+                        }
                         out.push(Value::Null);
                     }
                     "get" => {
                         let nm = crate::s(step, 1)?;
                         let reg = crate::reg_by_name(nm).ok_or_else(|| format!("bad reg {nm}"))?;
-                        out.push(json!(st.get_reg(reg)));
+                        if runtime && !nm.starts_with("TEMP") {
+                            out.push(json!(rt.get_reg(nm)));
+                        } else {
+                            out.push(json!(rt.state.get_reg(reg)));
+                        }
+                    }
+                    "peek" => {
+                        // a snapshot taken and thrown away (what saving a bundle does to a machine that runs on)
+                        let _ = collect_registers(&rt.state);
+                        out.push(Value::Null);
                     }
                     "roundtrip" => {
-                        let regs = collect_registers(&st);
+                        let regs = collect_registers(&rt.state);
                         let blob = pack_registers(&regs);
                         let mut back = unpack_registers(&blob).map_err(|e| format!("{e}"))?;
                         for (k, v) in regs.iter() {
@@ -169,16 +186,18 @@ fn regs(_host: &mut Host, name: &str, op: &Value) -> Result<Option<Value>, Strin
                                 back.insert(k.clone(), *v);
                             }
                         }
-                        let mut fresh = LlamaState::new();
-                        apply_registers(&mut fresh, &back);
-                        st = fresh;
+                        let mut fresh = Box::new(sc62015_core::CoreRuntime::new());
+                        fresh.state = LlamaState::new();
+                        apply_registers(&mut fresh.state, &back);
+                        rt = fresh;
                         out.push(json!(blob));
                     }
                     "apply" => {
-                        let regs = collect_registers(&st);
-                        let mut fresh = LlamaState::new();
-                        apply_registers(&mut fresh, &regs);
-                        st = fresh;
+                        let regs = collect_registers(&rt.state);
+                        let mut fresh = Box::new(sc62015_core::CoreRuntime::new());
+                        fresh.state = LlamaState::new();
+                        apply_registers(&mut fresh.state, &regs);
+                        rt = fresh;
                         out.push(Value::Null);
                     }
                     other => return Err(format!("bad reg step {other}")),
